@@ -12,16 +12,16 @@ import (
 	"fmt"
 	"math/big"
 	"sync"
+	"time"
 
 	"verif/harness/adapt/groups"
 	"verif/harness/adapt/pokmpc"
 	"verif/harness/gen"
 	"verif/harness/mon"
-	"verif/harness/oracle/ocurve"
 	"verif/harness/oracle/ofield"
 )
 
-var flagPar = flag.Int("par", 7, "curves processed concurrently")
+var flagPar = flag.Int("par", 16, "sections (curve x scheme) processed concurrently")
 
 type env struct {
 	c      *mon.Ctx
@@ -166,15 +166,13 @@ func torsion(g *groups.Group, rng *gen.Rng) any {
 			}
 			continue
 		}
-		if !g.C.IsOnCurve(t) || g.C.Mul(t, g.R).Inf && false {
+		if !g.C.IsOnCurve(t) {
 			panic("oracle torsion point off curve")
 		}
 		return g.Lib(g.Rep(t, "aff", nil))
 	}
 	return nil
 }
-
-var _ = ocurve.Pt{}
 
 // ---- verdicts ----
 
@@ -239,21 +237,40 @@ func runCurve(c *mon.Ctx, name string, newInst func() *pokmpc.Inst) {
 	e.t1 = torsion(e.g1, trng)
 	e.t2 = torsion(e.g2, trng)
 	c.Extra("cofactor_torsion_point/"+name, map[string]bool{"G1": e.t1 != nil, "G2": e.t2 != nil})
-	if mon.Selected(name + "/pedersen") {
-		e.pedersen()
+	sections := []struct {
+		name string
+		run  func(e *env)
+	}{
+		{"kzg", (*env).kzgSetup},
+		{"pedersen", (*env).pedersen},
+		{"mpcsetup", func(e *env) { e.updateProofs(); e.sameRatio() }},
 	}
-	if mon.Selected(name + "/mpcsetup") {
-		e.updateProofs()
-		e.sameRatio()
+	var wg sync.WaitGroup
+	for _, sec := range sections {
+		if !mon.Selected(name + "/" + sec.name) {
+			continue
+		}
+		// every section has its own seeded stream, so that the case list of a section does not depend on the others
+		es := *e
+		es.rng = gen.New(c.Seed, "c17a/"+name+"/"+sec.name)
+		wg.Add(1)
+		go func() {
+			defer wg.Done()
+			sem <- struct{}{}
+			defer func() { <-sem }()
+			t0 := time.Now()
+			c.Guard("ecc/"+name+"/"+sec.name+"/monitor/panic", func() string { return "unexpected panic outside a guarded library call" }, func() { sec.run(&es) })
+			c.Extra("wall_s/"+name+"/"+sec.name, time.Since(t0).Seconds())
+		}()
 	}
-	if mon.Selected(name + "/kzg") {
-		e.kzgSetup()
-	}
+	wg.Wait()
 }
+
+var sem chan struct{}
 
 func main() {
 	c := mon.Init("C17A")
-	sem := make(chan struct{}, *flagPar)
+	sem = make(chan struct{}, *flagPar)
 	var wg sync.WaitGroup
 	for _, cv := range pokmpc.All {
 		if !mon.Selected(cv.Name) && !mon.Selected(cv.Name+"/pedersen") && !mon.Selected(cv.Name+"/mpcsetup") && !mon.Selected(cv.Name+"/kzg") {
@@ -262,8 +279,6 @@ func main() {
 		wg.Add(1)
 		go func() {
 			defer wg.Done()
-			sem <- struct{}{}
-			defer func() { <-sem }()
 			c.Guard("ecc/"+cv.Name+"/monitor/panic", func() string { return "unexpected panic outside a guarded library call" }, func() {
 				runCurve(c, cv.Name, cv.New)
 			})
